@@ -74,6 +74,7 @@ inductive Node
   | tryN (body : Node) (catches : List (Option (Name × Option TyTag) × Node)) (fin : Option Node)
   | inlineVec (xs : List Node)
   | index (a i : Node)
+  | evalStr (nids : List Nat) (n : Node)      -- `eval("<text of n>")`: n is parsed afresh on every evaluation (its nodes are `nids`)
   | noop
 deriving Repr, Inhabited
 
